@@ -2,7 +2,6 @@ package vh
 
 import (
 	"encoding/json"
-	"flag"
 	"fmt"
 	"math"
 	"reflect"
@@ -54,6 +53,13 @@ type ValueCase struct {
 	OptsSpec  int          `json:"opts_spec"`  // 0 [OPTIONS], 1 one optional repetition per option
 	ArgDD     bool         `json:"arg_dd"`     // argument part written "[-- X...]" (else "[X...]")
 	WriteDD   bool         `json:"write_dd"`   // an explicit -- precedes the argument tokens
+	// ShareDefaults: multi-valued containers of the same type whose declared defaults are equal are declared
+	// with the very same slice (as a program holding one package-level default would do)
+	ShareDefaults bool `json:"share_defaults,omitempty"`
+	// Policy: error handling policy of the app (C07 runs typed conversion failures under all three)
+	Policy int `json:"policy,omitempty"`
+	// persist keeps the shared default slices across rebuilds of the same case (C20: a program holding its defaults in package-level variables)
+	persist sharedSlices
 }
 
 func multi(typ int) bool { return typ >= TStrings }
@@ -186,7 +192,23 @@ type vHolder struct {
 	set *bool
 }
 
-func declareValue(app *cli.Cli, ci int, c *VContainer, nopt *int, prefix string) vHolder {
+// sharedSlices hands out one slice object per (type, default tokens) within one app build.
+type sharedSlices map[string]interface{}
+
+func (sh sharedSlices) get(typ int, toks []string, mk func() interface{}) interface{} {
+	if sh == nil {
+		return mk()
+	}
+	k := fmt.Sprint(typ, toks)
+	if v, ok := sh[k]; ok {
+		return v
+	}
+	v := mk()
+	sh[k] = v
+	return v
+}
+
+func declareValue(app *cli.Cli, ci int, c *VContainer, nopt *int, prefix string, sh sharedSlices) vHolder {
 	var envNames []string
 	for ei, ev := range c.Env {
 		n := prefix + vEnvName(ci, ei)
@@ -245,10 +267,13 @@ func declareValue(app *cli.Cli, ci int, c *VContainer, nopt *int, prefix string)
 		}
 		return vHolder{func() []interface{} { return one(*p) }, set}
 	case TStrings:
-		var d []string
-		for i := range c.Default {
-			d = append(d, def(i).(string))
-		}
+		d := sh.get(c.Typ, c.Default, func() interface{} {
+			var d []string
+			for i := range c.Default {
+				d = append(d, def(i).(string))
+			}
+			return d
+		}).([]string)
 		var p *[]string
 		if c.IsArg {
 			p = app.Strings(cli.StringsArg{Name: name, Value: d, EnvVar: envList, SetByUser: set})
@@ -262,10 +287,13 @@ func declareValue(app *cli.Cli, ci int, c *VContainer, nopt *int, prefix string)
 			return
 		}, set}
 	case TInts:
-		var d []int
-		for i := range c.Default {
-			d = append(d, def(i).(int))
-		}
+		d := sh.get(c.Typ, c.Default, func() interface{} {
+			var d []int
+			for i := range c.Default {
+				d = append(d, def(i).(int))
+			}
+			return d
+		}).([]int)
 		var p *[]int
 		if c.IsArg {
 			p = app.Ints(cli.IntsArg{Name: name, Value: d, EnvVar: envList, SetByUser: set})
@@ -279,10 +307,13 @@ func declareValue(app *cli.Cli, ci int, c *VContainer, nopt *int, prefix string)
 			return
 		}, set}
 	default:
-		var d []float64
-		for i := range c.Default {
-			d = append(d, def(i).(float64))
-		}
+		d := sh.get(c.Typ, c.Default, func() interface{} {
+			var d []float64
+			for i := range c.Default {
+				d = append(d, def(i).(float64))
+			}
+			return d
+		}).([]float64)
 		var p *[]float64
 		if c.IsArg {
 			p = app.Floats64(cli.Floats64Arg{Name: name, Value: d, EnvVar: envList, SetByUser: set})
@@ -423,10 +454,17 @@ func RunValuesInner(out *Outcome, c *ValueCase) (got [][]interface{}, gotSet []b
 	spec, argv := valueSpecArgv(c)
 	var hs []vHolder
 	app := cli.App("app", "")
-	app.ErrorHandling = flag.ContinueOnError
+	app.ErrorHandling = policies[c.Policy]
 	nopt := 0
+	var sh sharedSlices
+	if c.ShareDefaults {
+		sh = c.persist
+		if sh == nil {
+			sh = sharedSlices{}
+		}
+	}
 	for i := range c.Cs {
-		hs = append(hs, declareValue(app, i, &c.Cs[i], &nopt, c.EnvPrefix))
+		hs = append(hs, declareValue(app, i, &c.Cs[i], &nopt, c.EnvPrefix, sh))
 	}
 	app.Spec = spec
 	app.Action = func() {
@@ -440,6 +478,68 @@ func RunValuesInner(out *Outcome, c *ValueCase) (got [][]interface{}, gotSet []b
 		out.HasErr, out.Err = true, err.Error()
 	}
 	return
+}
+
+// CheckValuesPolicy (C07): a command-line token the built-in types cannot convert is a rejection that follows the policy.
+func CheckValuesPolicy(c *ValueCase, st *Stats) *Violation {
+	st.Eval()
+	spec, argv := valueSpecArgv(c)
+	anyCliErr := false
+	nonLastBad := false
+	for i := range c.Cs {
+		e := expectContainer(&c.Cs[i])
+		anyCliErr = anyCliErr || e.cliErr
+		if e.cliErr && len(c.Cs[i].Cli) > 1 {
+			if _, ok := parseTyped(c.Cs[i].Typ, c.Cs[i].Cli[len(c.Cs[i].Cli)-1].Tok); ok || c.Cs[i].Cli[len(c.Cs[i].Cli)-1].Form == 5 {
+				nonLastBad = true
+			}
+		}
+	}
+	var out Outcome
+	Begin("C07", "valuespolicy", c)
+	WithSwap(&out, func() { RunValuesInner(&out, c) })
+	End()
+	ctx := fmt.Sprintf("policy %v spec %q argv %q containers %s", policies[c.Policy], spec, argv, describeContainers(c))
+	if !anyCliErr {
+		if !out.Accept || out.HasErr || out.Exit != nil || out.Panic != "" {
+			return Violf("every token converts, yet the invocation did not simply succeed (Action=%v err=%q exit=%s panic=%q); %s", out.Accept, out.Err, fmtExit(out.Exit), out.Panic, ctx)
+		}
+		st.Class("typed:accepted")
+		return nil
+	}
+	if out.Accept {
+		return Violf("a command-line value is not convertible to its type, yet the Action ran; %s", ctx)
+	}
+	if !containsUsage(out.Stderr, "app") {
+		return Violf("conversion failure: usage of the rejecting command missing from the error stream %q; %s", out.Stderr, ctx)
+	}
+	switch c.Policy {
+	case PolContinue:
+		if !out.HasErr || out.Exit != nil || out.Panic != "" {
+			return Violf("ContinueOnError: expected a returned error, got err=%q exit=%s panic=%q; %s", out.Err, fmtExit(out.Exit), out.Panic, ctx)
+		}
+		if !strings.Contains(out.Stderr, out.Err) {
+			return Violf("ContinueOnError: error stream %q lacks the error text %q; %s", out.Stderr, out.Err, ctx)
+		}
+	case PolExit:
+		if out.Exit == nil || *out.Exit != 2 || out.Exits != 1 || out.Panic != "" {
+			return Violf("ExitOnError: expected exit(2) once, got exit=%s x%d panic=%q; %s", fmtExit(out.Exit), out.Exits, out.Panic, ctx)
+		}
+	case PolPanic:
+		if perr, ok := out.PanicVal.(error); !ok || out.Exit != nil {
+			return Violf("PanicOnError: expected a panic with the error, got panic=%q exit=%s; %s", out.Panic, fmtExit(out.Exit), ctx)
+		} else if !strings.Contains(out.Stderr, perr.Error()) {
+			return Violf("PanicOnError: error stream %q lacks the error text %q; %s", out.Stderr, perr.Error(), ctx)
+		}
+	}
+	st.Class("typed:conversion-failure-follows-policy")
+	if nonLastBad {
+		st.Class("typed:unconvertible-value-before-a-valid-one")
+	}
+	st.NonTrivial(describeContainers(c)+fmt.Sprint(c.Policy, c.OptsSpec, c.ArgDD, c.WriteDD), func() interface{} {
+		return map[string]interface{}{"spec": spec, "argv": argv, "policy": c.Policy, "containers": c.Cs}
+	})
+	return nil
 }
 
 func kindName(vc *VContainer) string {
@@ -616,10 +716,37 @@ func GenValueCase(t *rapid.T, mode ValueGenMode) *ValueCase {
 	if hasArg {
 		c.Cs = append(c.Cs, mk(true))
 	}
+	if len(c.Cs) >= 2 && chance(t, 1, 3, "sharedefaults") {
+		// make a later multi-valued container a twin (same type, same non-empty default) of an earlier one
+		for i := 0; i < len(c.Cs)-1; i++ {
+			if multi(c.Cs[i].Typ) && len(c.Cs[i].Default) > 0 {
+				j := i + 1 + intn(t, len(c.Cs)-i-1, "twin")
+				c.Cs[j].Typ = c.Cs[i].Typ
+				c.Cs[j].Default = append([]string{}, c.Cs[i].Default...)
+				c.Cs[j].Env = nil
+				keep := c.Cs[j].Cli[:0]
+				for _, cv := range c.Cs[j].Cli {
+					if _, ok := parseTyped(c.Cs[j].Typ, cv.Tok); ok && usableCliToken(cv.Tok, c.Cs[j].Typ, c.Cs[j].IsArg, cv.Form, c.WriteDD, c.ArgDD) && cv.Form != 5 {
+						keep = append(keep, cv)
+					}
+				}
+				c.Cs[j].Cli = keep
+				c.ShareDefaults = true
+				break
+			}
+		}
+	}
 	return c
 }
 
 func init() {
+	RegisterReplay("C07", "valuespolicy", func(raw json.RawMessage) *Violation {
+		var c ValueCase
+		if err := json.Unmarshal(raw, &c); err != nil {
+			return Violf("bad replay file: %v", err)
+		}
+		return CheckValuesPolicy(&c, StatsFor("C07.replay"))
+	})
 	for _, p := range []string{"C06", "C13", "C15"} {
 		p := p
 		RegisterReplay(p, "values", func(raw json.RawMessage) *Violation {
